@@ -41,19 +41,19 @@ def notifyOnOrSkip (topic what : String) (online : Bool) : Option String :=
 
 /-- presUsersOfInterest (pres.go:254-283): the user's status goes to every contact - to a p2p partner's `me`, to a group topic.
 `+dis` marks the contacts offline on this side. -/
-def Ctx.presUsersOfInterestCore (c : Ctx) (t : Topic) (what : String) (wantReply goOffline : Bool) : Ctx × Topic :=
+def Ctx.presUsersOfInterestCore (c : Ctx) (t : Topic) (what : String) (wantReply goOffline : Bool) (cmd : String := "") : Ctx × Topic :=
   let c := t.perSubs.foldl (fun c (topic, online, _) =>
     match notifyOnOrSkip topic what online with
     | none => c
-    | some _ => c.offq topic { what := what, src := t.name, wantReply := wantReply }) c
+    | some _ => c.offq topic { what := what, cmd := cmd, src := t.name, wantReply := wantReply }) c
   let t := if goOffline then { t with perSubs := t.perSubs.map (fun (n, o, e) =>
       if (notifyOnOrSkip n what o).isSome ∧ o then (n, false, e) else (n, o, e)) } else t
   (c, t)
 
-/-- `what` is `on`, `off`, `upd`, `ua`, possibly with a `+dis` command -/
-def Ctx.presUsersOfInterest (c : Ctx) (t : Topic) (what : String) : Ctx × Topic :=
-  let parts := what.splitOn "+"
-  c.presUsersOfInterestCore t what (parts.headD "" = "on") (parts.getD 1 "" = "dis")
+/-- `what` is `on`, `off`, `upd`, `ua`; the command (`en`, `dis`) travels with it. "on" asks the contacts for an answer, `dis` marks them
+offline on this side -/
+def Ctx.presUsersOfInterest (c : Ctx) (t : Topic) (what : String) (cmd : String := "") : Ctx × Topic :=
+  c.presUsersOfInterestCore t what (what = "on") (cmd = "dis") cmd
 
 /-! ### procPresReq (pres.go:97-226) -/
 
@@ -73,13 +73,13 @@ def procPresReqCore (t : Topic) (from_ : String) (what cmd0 : String) (wantReply
   | none => (t, what, none)            -- all other notifications pass through unchanged
   | some (fwd, online, reqReply, cmd) =>
     let onlineUpdate := online = some true
-    let (t, fwd, replyAs) : Topic × String × String :=
-      if !t.isMe then (t, fwd, "on") else
+    let (t, fwd, replyAs) : Topic × String × (String × String) :=
+      if !t.isMe then (t, fwd, ("on", "")) else
       match psGet t.perSubs from_ with
       | some (ponl, pen) =>
         if cmd = "rem" then
           let fwd := if !pen ∧ fwd = "off" then "" else fwd
-          ({ t with perSubs := psDel t.perSubs from_ }, fwd, "off+rem")
+          ({ t with perSubs := psDel t.perSubs from_ }, fwd, ("off", "rem"))
         else
           let (pen', fwd) : Bool × String :=
             if cmd = "" then (pen, if !pen ∨ online.isNone ∨ online = some ponl then "" else fwd)
@@ -89,21 +89,20 @@ def procPresReqCore (t : Topic) (from_ : String) (what cmd0 : String) (wantReply
               (if pen then (false, if !ponl then "" else fwd) else (false, ""))
             else (pen, fwd)
           let ponl' := if !pen' then false else match online with | some o => o | none => ponl
-          ({ t with perSubs := psSet t.perSubs from_ (ponl', pen') }, fwd, "on")
+          ({ t with perSubs := psSet t.perSubs from_ (ponl', pen') }, fwd, ("on", ""))
       | none =>
         if cmd ≠ "rem" then
           -- a contact not seen before: recorded (p2p names are indexed by the other user; a `me` never lists itself)
           let t := if from_ = t.name then t else { t with perSubs := psSet t.perSubs from_ (onlineUpdate, cmd = "en") }
-          (t, if cmd ≠ "en" then "" else fwd, "on")
-        else (t, "", "on")
+          (t, if cmd ≠ "en" then "" else fwd, ("on", ""))
+        else (t, "", ("on", ""))
     let reply : Option PresMsg :=
-      if (onlineUpdate ∨ reqReply) ∧ wantReply then some { what := replyAs, src := t.name, wantReply := reqReply } else none
+      if (onlineUpdate ∨ reqReply) ∧ wantReply then some { what := replyAs.1, cmd := replyAs.2, src := t.name, wantReply := reqReply } else none
     (t, fwd, reply)
 
-/-- the notification's `what` is split at `+` into the status and the command -/
-def procPresReq (t : Topic) (from_ : String) (what0 : String) (wantReply : Bool) : Topic × String × Option PresMsg :=
-  let parts := what0.splitOn "+"
-  procPresReqCore t from_ (parts.headD "") (parts.getD 1 "") wantReply
+/-- (on the wire the status and the command are one string, "what+cmd"; the model keeps them apart) -/
+def procPresReq (t : Topic) (from_ : String) (what cmd : String) (wantReply : Bool) : Topic × String × Option PresMsg :=
+  procPresReqCore t from_ what cmd wantReply
 
 /-! ### delivery on `me` -/
 
@@ -127,7 +126,7 @@ def Ctx.deliverOff (c : Ctx) (rcpt : TName) (p : PresMsg) : Ctx :=
   | some t =>
     if t.inactive then c else
     if p.isInfo then (if t.isMe then c.forwardOnMe t p p.what else c) else
-    let (t', fwd, reply) := procPresReq t p.src p.what p.wantReply
+    let (t', fwd, reply) := procPresReq t p.src p.what p.cmd p.wantReply
     let c := if t' ≠ t then c.putLive t' else c
     let c := match reply with | some r => c.offq p.src r | none => c
     -- forwarded only when addressed to this topic under its own name: `me` for a `me` topic
@@ -207,7 +206,7 @@ def Ctx.opSubMe (c : Ctx) (a : Actor) : Ctx :=
         if !ok then (c.emit a.sid (ctrl 500 tn), none) else
         let t := t.setPud a.uid { want := want, given := given }
         -- notifySubChange on `me`: a subscription which comes with presence is announced ("on+en") to the contacts known so far
-        let (c, t) := if hearsPres (want &&& given) then c.presUsersOfInterest t "on+en" else (c, t)
+        let (c, t) := if hearsPres (want &&& given) then c.presUsersOfInterest t "on" "en" else (c, t)
         (c, some (t, some (want, given)))
     match r with
     | (c, none) => c
